@@ -82,6 +82,8 @@ def spell(spec, inner=False):
         return repr(spec) if inner else spec
     if is_rat(spec):
         return f"{spec['q'][0]}/{spec['q'][1]}"
+    if isinstance(spec, dict):
+        return str(spec.get("e", spec))
     return "[" + ", ".join(spell(x, True) for x in spec) + "]"
 
 
